@@ -4,6 +4,7 @@ package sim
 
 import (
 	"encoding/binary"
+	"fmt"
 	"hash/fnv"
 	"math/rand/v2"
 )
@@ -26,6 +27,10 @@ type Tape struct {
 	pos    int
 	Rec    []Entry
 	keep   bool
+	// replay diagnostics: the labels (and ranges) the values were recorded under; the first position
+	// at which a replayed run asks for something else is remembered
+	want     []Entry
+	Diverged string
 }
 
 // NewTape returns a search-mode tape.
@@ -41,6 +46,15 @@ func NewTape(seed uint64, prop string, run uint64) *Tape {
 // NewReplayTape returns a replay-mode tape.
 func NewReplayTape(values []int) *Tape {
 	return &Tape{replay: values, isRep: true, keep: true}
+}
+
+// NewCheckedReplayTape replays recorded entries and notes the first draw whose label or range differs.
+func NewCheckedReplayTape(rec []Entry) *Tape {
+	vals := make([]int, len(rec))
+	for i, e := range rec {
+		vals[i] = e.V
+	}
+	return &Tape{replay: vals, isRep: true, keep: true, want: rec}
 }
 
 // Values returns the consumed values.
@@ -59,6 +73,9 @@ func (t *Tape) Draw(n int, label string) int {
 	}
 	var v int
 	if t.isRep {
+		if t.want != nil && t.Diverged == "" && t.pos < len(t.want) && (t.want[t.pos].Label != label || t.want[t.pos].N != n) {
+			t.Diverged = fmt.Sprintf("draw #%d: recorded %s/%d, replay asks %s/%d", t.pos, t.want[t.pos].Label, t.want[t.pos].N, label, n)
+		}
 		if t.pos < len(t.replay) {
 			v = t.replay[t.pos]
 			if v < 0 {
